@@ -750,6 +750,14 @@ impl TypeSpace {
         };
         // TODO need a type alias?
         if let Some(entry_name) = type_entry.name() {
+            // Two definitions (or a definition and a previously generated
+            // type) with the same type name would be emitted twice.
+            if matches!(self.name_to_id.get(entry_name), Some(other) if other != &type_id) {
+                return Err(Error::InvalidSchema {
+                    type_name: Some(entry_name.clone()),
+                    reason: "a type with this name has already been defined".to_string(),
+                });
+            }
             self.name_to_id.insert(entry_name.clone(), type_id.clone());
         }
         self.id_to_entry.insert(type_id, type_entry);
